@@ -14,9 +14,12 @@ on the pinned tree the same configurations came back).  Everything the surrogate
 acquisition function and the random generators decide is in the rounds' environments and is
 universally quantified: the candidate lists `Space.rvs` returned, the argmin indices, the
 vectors lbfgs/ga ended on (`Pick.free`, arbitrary), the argsorts per kappa.  `c₀` is any freshly
-set-up CBO optimizer with `filter_duplicated=True`, the random initial design (no pre-computed
-initial points), any `n_initial_points`, any surrogate (`dummy` or not), any failure policy
-(`ignoreFailures`), and a multi-point strategy among `cl_min, cl_mean, cl_max, qUCB, qUCBd`.
+set-up CBO optimizer with `filter_duplicated=True`, the random initial design, any
+`n_initial_points`, any surrogate (`dummy` or not), any failure policy (`ignoreFailures`), and a
+multi-point strategy among `cl_min, cl_mean, cl_max, qUCB, qUCBd`; the `…_initial` theorems add any
+pairwise-distinct list of initial points given by the user (`CBO(initial_points=[…])`: handed out
+first, one by one or in batches, alone or completed by random points; fewer, as many or more than
+`n_initial_points`).
 
 Contracts of the environment (`OpRT`):
 * `FitRT.rt` — for every sampled candidate `c`, transforming it and coming back (clip,
@@ -27,7 +30,8 @@ Contracts of the environment (`OpRT`):
 * `OrdersCover` — the argsort of the acquisition values mentions every index of the array it
   was computed on (it is a permutation).
 
-Each proposal carries the history variable `offered`: the candidate list it was selected from.
+Each proposal carries the history variable `offered`: the candidate list it was selected from
+(`[]` for an initial point given by the user: it is not selected from any list).
 -/
 
 namespace DH.Ask
@@ -46,8 +50,43 @@ theorem C08_fresh (ops : Ops α τ) (nInit : Int) (dummy ign : Bool) (strat : St
     (i : Nat) (hi : i < Z.length) (hdup : Z[i].x ∈ (Z.take i).map (·.x)) :
     ∀ cand ∈ Z[i].offered, cand ∈ (Z.take i).map (·.x) := by
   have h := (runOps_fresh (start_bnd _ nInit dummy strat ign hst) henv hrun).1
-  have := (selsOK_index h i hi).2
-  simpa using this (by simpa using hdup)
+  rcases selsOK_index h i hi with ⟨_, hnot⟩ | ⟨_, himp⟩
+  · exact absurd (by simpa using hdup) hnot
+  · simpa using himp (by simpa using hdup)
+
+/-- **C08 (fresh proposals, initial points given by the user).**  The same for a search started
+with any pairwise-distinct list `init` of initial points (`CBO(initial_points=[…])`, random design
+for the rest of the initial phase) and any `n_initial_points`: in every sequence of ask/tell calls
+a proposal that equals an earlier proposal **is never one of the given points** (`offered ≠ []`)
+— the given points are handed out once, and what is handed out in the initial phase, alone or in
+a batch, is recorded so that no later fit selects it again (seeded change C08-9) — and every
+candidate of the (non-empty: `Space.rvs` returns `n_points ≥ 1` rows) list it was selected from had
+already been proposed. -/
+theorem C08_fresh_initial (ops : Ops α τ) (nInit : Int) (dummy ign : Bool) (strat : Strategy)
+    (hst : strat.c08) (init : List α) (hinit : init.Nodup) (calls : List (Op α τ))
+    (henv : ∀ o ∈ calls, OpRT (fun l => l ≠ []) ops o)
+    (c : Cbo α) (Z : List (Sel α))
+    (hrun : runOps ops (Cbo.startInit nInit dummy strat ign init) calls = .ok (c, Z))
+    (i : Nat) (hi : i < Z.length) (hdup : Z[i].x ∈ (Z.take i).map (·.x)) :
+    Z[i].offered ≠ [] ∧ ∀ cand ∈ Z[i].offered, cand ∈ (Z.take i).map (·.x) := by
+  have h := (runOps_fresh (startInit_bnd _ nInit dummy strat ign init hst hinit) henv hrun).1
+  rcases selsOK_index h i hi with ⟨_, hnot⟩ | ⟨hne, himp⟩
+  · exact absurd (by simpa using hdup) hnot
+  · exact ⟨hne, by simpa using himp (by simpa using hdup)⟩
+
+/-- … and a given initial point is never a repetition: when it is handed out it has not been
+proposed before (whatever the candidate lists are). -/
+theorem C08_initial_points_fresh (ops : Ops α τ) (nInit : Int) (dummy ign : Bool) (strat : Strategy)
+    (hst : strat.c08) (init : List α) (hinit : init.Nodup) (calls : List (Op α τ))
+    (henv : ∀ o ∈ calls, OpRT (fun l => l ≠ []) ops o)
+    (c : Cbo α) (Z : List (Sel α))
+    (hrun : runOps ops (Cbo.startInit nInit dummy strat ign init) calls = .ok (c, Z))
+    (i : Nat) (hi : i < Z.length) (hinitial : Z[i].offered = []) :
+    Z[i].x ∉ (Z.take i).map (·.x) := by
+  have h := (runOps_fresh (startInit_bnd _ nInit dummy strat ign init hst hinit) henv hrun).1
+  rcases selsOK_index h i hi with ⟨_, hnot⟩ | ⟨hne, _⟩
+  · simpa using hnot
+  · exact absurd hinitial hne
 
 /-- **C08 (recording).**  Every configuration handed out is in `Optimizer.sampled` afterwards,
 and `sampled` contains nothing else: the duplicate filter sees exactly the proposals. -/
@@ -61,16 +100,28 @@ theorem C08_recorded (ops : Ops α τ) (nInit : Int) (dummy ign : Bool) (strat :
   intro x
   simpa using h.good.smp x
 
+/-- the same with initial points given by the user: they are recorded like every other proposal -/
+theorem C08_recorded_initial (ops : Ops α τ) (nInit : Int) (dummy ign : Bool) (strat : Strategy)
+    (hst : strat.c08) (init : List α) (hinit : init.Nodup) (calls : List (Op α τ))
+    (henv : ∀ o ∈ calls, OpRT (fun _ => True) ops o)
+    (c : Cbo α) (Z : List (Sel α))
+    (hrun : runOps ops (Cbo.startInit nInit dummy strat ign init) calls = .ok (c, Z)) :
+    ∀ x, x ∈ c.opt.sampled ↔ x ∈ Z.map (·.x) := by
+  have h := (runOps_fresh (startInit_bnd _ nInit dummy strat ign init hst hinit) henv hrun).2
+  intro x
+  simpa using h.good.smp x
+
 /-- **C08 (finite spaces).**  On a space of `N` configurations (`univ`, duplicate-free) whose
-candidate lists always cover the space, the first `N` proposals are pairwise distinct. -/
-theorem C08_finite (ops : Ops α τ) (univ : List α) (hnd : univ.Nodup)
+candidate lists always cover the space, the first `N` proposals are pairwise distinct — with any
+pairwise-distinct list of initial points given by the user handed out first. -/
+theorem C08_finite_initial (ops : Ops α τ) (univ : List α) (hnd : univ.Nodup)
     (nInit : Int) (dummy ign : Bool) (strat : Strategy) (hst : strat.c08)
-    (calls : List (Op α τ))
+    (init : List α) (hinit : init.Nodup) (calls : List (Op α τ))
     (henv : ∀ o ∈ calls, OpRT (fun l => ∀ u ∈ univ, u ∈ l) ops o)
     (c : Cbo α) (Z : List (Sel α))
-    (hrun : runOps ops (Cbo.start nInit dummy strat ign) calls = .ok (c, Z)) :
+    (hrun : runOps ops (Cbo.startInit nInit dummy strat ign init) calls = .ok (c, Z)) :
     ((Z.take univ.length).map (·.x)).Nodup := by
-  have h := (runOps_fresh (start_bnd _ nInit dummy strat ign hst) henv hrun).1
+  have h := (runOps_fresh (startInit_bnd _ nInit dummy strat ign init hst hinit) henv hrun).1
   apply nodup_of_not_mem_take
   intro i hi hmem
   simp only [List.length_map, List.length_take] at hi
@@ -83,11 +134,82 @@ theorem C08_finite (ops : Ops α τ) (univ : List α) (hnd : univ.Nodup)
   have e2 : ((Z.take univ.length).map (·.x)).take i = (Z.take i).map (·.x) := by
     rw [← List.map_take, List.take_take, Nat.min_eq_left (Nat.le_of_lt hiN)]
   rw [e1, e2] at hmem
-  have hsub : ∀ u ∈ univ, u ∈ (Z.take i).map (·.x) :=
-    fun u hu => hidx.2 hmem u (hidx.1 u hu)
-  have := nodup_length_le_of_subset hnd hsub
-  simp only [List.length_map, List.length_take] at this
-  omega
+  rcases hidx with ⟨_, hnot⟩ | hidx
+  · exact hnot hmem
+  · have hsub : ∀ u ∈ univ, u ∈ (Z.take i).map (·.x) :=
+      fun u hu => hidx.2 hmem u (hidx.1 u hu)
+    have := nodup_length_le_of_subset hnd hsub
+    simp only [List.length_map, List.length_take] at this
+    omega
+
+/-- **C08 (finite spaces)** without given initial points (the instance `init = []`) -/
+theorem C08_finite (ops : Ops α τ) (univ : List α) (hnd : univ.Nodup)
+    (nInit : Int) (dummy ign : Bool) (strat : Strategy) (hst : strat.c08)
+    (calls : List (Op α τ))
+    (henv : ∀ o ∈ calls, OpRT (fun l => ∀ u ∈ univ, u ∈ l) ops o)
+    (c : Cbo α) (Z : List (Sel α))
+    (hrun : runOps ops (Cbo.start nInit dummy strat ign) calls = .ok (c, Z)) :
+    ((Z.take univ.length).map (·.x)).Nodup :=
+  C08_finite_initial ops univ hnd nInit dummy ign strat hst [] List.nodup_nil calls henv c Z hrun
+
+/-- **C08 (initial points handed out in a batch).**  `Optimizer.ask(n ≥ 2)` while initial points
+(given by the user with `initial_points=[…]`, or pre-computed by a design) are pending hands out
+`a` = the next `n` of them and completes the batch with `b` = random points.  If the pending
+initial points are pairwise distinct and none of them was proposed before (`H` = everything
+proposed so far = `sampled`), then
+* the initial points of the batch are new and pairwise distinct;
+* the random points are pairwise distinct and differ from everything proposed before **and from
+  the initial points of the same batch** — or every candidate drawn had already been proposed;
+* afterwards `sampled` holds exactly `H ++ a ++ b` (the initial points are recorded, so the
+  candidates of later fits are filtered against them: seeded change C08-9), and the initial
+  points still pending are pairwise distinct and not proposed yet.
+(This is the step of the invariant behind `C08_fresh_initial` for the initial-points branch.  On
+the tree before the wave-3 fix the second item failed: `askInitBatchPre` below.) -/
+theorem C08_initial_batch (s : Opt α) (n : Nat) (cands H : List α) (hon : s.filterOn = true)
+    (hsmp : ∀ x, x ∈ s.sampled ↔ x ∈ H) (hnd : s.initSamples.Nodup)
+    (hnew : ∀ x ∈ s.initSamples, x ∉ H) :
+    ∃ a b, ((askInitBatch s n cands).2.map (·.x)) = a ++ b ∧ a = s.initSamples.take n ∧
+      (a.Nodup ∧ ∀ x ∈ a, x ∉ H) ∧
+      ((∀ c ∈ cands, c ∈ H ++ a) ∨ (b.Nodup ∧ ∀ x ∈ b, x ∉ H ++ a)) ∧
+      (∀ x, x ∈ (askInitBatch s n cands).1.sampled ↔ x ∈ H ++ a ++ b) ∧
+      ((askInitBatch s n cands).1.initSamples.Nodup ∧
+        ∀ x ∈ (askInitBatch s n cands).1.initSamples, x ∉ H ++ a ++ b) := by
+  have hk : s.initSamples.take (min s.initSamples.length n) = s.initSamples.take n := by
+    rw [List.take_eq_take_iff]; omega
+  have hd : s.initSamples.drop (min s.initSamples.length n) = s.initSamples.drop n := by
+    by_cases h : s.initSamples.length ≤ n
+    · rw [Nat.min_eq_left h, List.drop_eq_nil_of_le (Nat.le_refl _), List.drop_eq_nil_of_le h]
+    · rw [Nat.min_eq_right (by omega)]
+  have hsplit : s.initSamples = s.initSamples.take n ++ s.initSamples.drop n :=
+    (List.take_append_drop n s.initSamples).symm
+  have hnd' : (s.initSamples.take n ++ s.initSamples.drop n).Nodup := by rw [← hsplit]; exact hnd
+  have hsmp' : ∀ x, x ∈ s.sampled ++ s.initSamples.take n ↔ x ∈ H ++ s.initSamples.take n := by
+    intro x; rw [List.mem_append, List.mem_append, hsmp x]
+  refine ⟨s.initSamples.take n,
+    (filterDup true (s.sampled ++ s.initSamples.take n) cands).take (n - min s.initSamples.length n),
+    ?_, rfl, ⟨(List.nodup_append.1 hnd').1, fun x hx => hnew x (List.mem_of_mem_take hx)⟩, ?_, ?_, ?_⟩
+  · simp [askInitBatch, hk, hon, List.map_append, Function.comp_def]
+  · rcases filterDup_cases_H (l := cands) hsmp' with h | ⟨h1, h2, _⟩
+    · exact Or.inl h
+    · exact Or.inr ⟨h1.sublist (List.take_sublist _ _), fun x hx => h2 x (List.mem_of_mem_take hx)⟩
+  · intro x
+    simp only [askInitBatch, hk, hon, List.mem_append, hsmp x]
+    tauto
+  · simp only [askInitBatch, hd]
+    refine ⟨(List.nodup_append.1 hnd').2.1, ?_⟩
+    intro x hx hmem
+    have hxI : x ∈ s.initSamples := List.mem_of_mem_drop hx
+    rcases List.mem_append.1 hmem with hmem | hmem
+    · rcases List.mem_append.1 hmem with hmem | hmem
+      · exact hnew x hxI hmem
+      · exact (List.nodup_append.1 hnd').2.2 x hmem x hx rfl
+    · -- a pending point is left only if the whole batch was made of initial points
+      have hlen : n < s.initSamples.length := by
+        by_contra hle
+        rw [List.drop_eq_nil_of_le (by omega)] at hx
+        cases hx
+      rw [Nat.min_eq_right (by omega), Nat.sub_self, List.take_zero] at hmem
+      cases hmem
 
 /-- **C08 (verified checker).**  The executable check the harness runs over the proposals of
 the real implementation (each with the candidate list it was selected from) decides exactly
@@ -151,6 +273,44 @@ example : proposals (run ops3 (Cbo.start 1 false .qLCB false)
 example : proposals (runOps ops3 (Cbo.start 1 false .clMin false)
     [.ask 1 (env3 []), .tell [(2, .val)] (fit3 0), .ask 1 (env3 []), .ask 1 (env3 []), .ask 2 (env3 [])]) =
     [2, 0, 1, 0, 0] := by
+  decide +kernel
+
+/-- a run with two given points on the 3-point space, `n_initial_points = 2`: `ask(3)` hands out the
+given points `1, 0` and one random point that differs from them (candidates `[2, 0, 1, 0]`),
+then the exhausted space repeats -/
+example : proposals (runOps ops3 (Cbo.startInit 2 false .clMin false [1, 0])
+    [.ask 3 (env3 []), .tell [(1, .val), (0, .val), (2, .val)] (fit3 0), .ask 1 (env3 [])]) = [1, 0, 2, 0] := by
+  decide +kernel
+
+example : ([1, 0] : List Nat).Nodup := by decide
+
+/-- the environment contract of `C08_fresh_initial` (non-empty candidate lists) is satisfiable -/
+example : OpRT (fun l : List Nat => l ≠ []) ops3 (.ask 3 (env3 [])) := by
+  refine ⟨by decide, ⟨fun _ _ => rfl, by decide⟩, ?_, ?_, ⟨fun _ _ => rfl, by decide⟩⟩
+  · intro st hst
+    simp only [env3, List.mem_cons, List.not_mem_nil, or_false] at hst
+    rcases hst with rfl | rfl | rfl <;> exact ⟨by decide, fun _ _ => rfl, by decide⟩
+  · intro l o ho
+    simp [env3] at ho
+
+/-- the hypotheses of `C08_initial_batch` are satisfiable: one configuration proposed so far, two
+distinct given points pending, `ask(3)` = the two given points and one random point that differs
+from them (candidates `[0, 3, 1, 2]`: `0` is a given point of this batch, `3` was proposed) -/
+example : (askInitBatch (α := Nat) { (Opt.init true false 3 [0, 1] : Opt Nat) with sampled := [3] }
+    3 [0, 3, 1, 2]).2.map (·.x) = [0, 1, 2] := by
+  decide +kernel
+
+/-- the same call before the wave-3 fix (`Optimizer.ask` filtered the random points against
+`sampled` only): the random point repeats the given point `0` of its own batch -/
+example : (askInitBatchPre (α := Nat) { (Opt.init true false 3 [0, 1] : Opt Nat) with sampled := [3] }
+    3 [0, 3, 1, 2]).2.map (·.x) = [0, 1, 0] := by
+  decide +kernel
+
+/-- seeded change C08-9 in the model's terms: were the given points of a batch not recorded in
+`sampled`, the first fit after them could select one of them again; with the recording the
+duplicate filter removes them from the candidates (`[0, 1, 2, 3]` filtered against `[0, 1, 2]`) -/
+example : filterDup true ((askInitBatch (α := Nat) (Opt.init true false 2 [0, 1]) 3 [0, 1, 2, 3]).1.sampled)
+    [0, 1, 2, 3] = [3] := by
   decide +kernel
 
 /-- DESIGN §6-8a on the pinned tree: the qLCB branch took the plain argmin for every kappa and
